@@ -173,18 +173,27 @@ theorem wfs_shift (G : GCtx) (pi : PInfo) (dep0 dep : Nat) (hi0 hi : Nat → Wor
 
 /-! ### The program context of a compilation -/
 
-/-- The global declarations of the class: variables, and arrays whose length is a literal. -/
-def isGDecl : X.Decl → Bool
-  | .var _ => true
-  | .array _ (.num k) => decide (0 ≤ k.toInt)
-  | _ => false
+/-- The global declarations of the class: variables, constants, and arrays whose length is a
+    non-negative constant; `vals` are the constants declared so far (most recent first). -/
+def isGDecls : List X.Decl → List (String × Word) → Bool
+  | [], _ => true
+  | .var _ :: ds, vals => isGDecls ds vals
+  | .array _ sz :: ds, vals =>
+    (match X.constEval vals sz with | .ok w => decide (0 ≤ w.toInt) | .error _ => false) && isGDecls ds vals
+  | .val n e :: ds, vals =>
+    match X.constEval vals e with
+    | .ok w => isGDecls ds ((n, w) :: vals)
+    | .error _ => false
 
 /-- What `X.bindGlobals` makes of such declarations: the environment (arrays numbered from `k`), -/
-def v2Genv : List X.Decl → Nat → List (String × GBind)
-  | [], _ => []
-  | .var n :: ds, k => (n, .var) :: v2Genv ds k
-  | .array n _ :: ds, k => (n, .array k) :: v2Genv ds (k + 1)
-  | .val n _ :: ds, k => (n, .var) :: v2Genv ds k
+def v2Genv : List X.Decl → Nat → List (String × Word) → List (String × GBind)
+  | [], _, _ => []
+  | .var n :: ds, k, vals => (n, .var) :: v2Genv ds k vals
+  | .array n _ :: ds, k, vals => (n, .array k) :: v2Genv ds (k + 1) vals
+  | .val n e :: ds, k, vals =>
+    match X.constEval vals e with
+    | .ok w => (n, .val w) :: v2Genv ds k ((n, w) :: vals)
+    | .error _ => v2Genv ds k vals
 
 /-- the store of the global variables, -/
 def v2Gv : List X.Decl → List (String × Option Word)
@@ -192,81 +201,208 @@ def v2Gv : List X.Decl → List (String × Option Word)
   | .var n :: ds => (n, none) :: v2Gv ds
   | _ :: ds => v2Gv ds
 
-/-- and the lengths of the arrays. -/
-def v2Sizes : List X.Decl → List Nat
-  | [] => []
-  | .array _ (.num k) :: ds => k.toNat :: v2Sizes ds
-  | .array _ _ :: ds => 0 :: v2Sizes ds
-  | _ :: ds => v2Sizes ds
+/-- the lengths of the arrays, -/
+def v2Sizes : List X.Decl → List (String × Word) → List Nat
+  | [], _ => []
+  | .var _ :: ds, vals => v2Sizes ds vals
+  | .array _ sz :: ds, vals => (match X.constEval vals sz with | .ok w => w.toNat | .error _ => 0) :: v2Sizes ds vals
+  | .val n e :: ds, vals =>
+    match X.constEval vals e with
+    | .ok w => v2Sizes ds ((n, w) :: vals)
+    | .error _ => v2Sizes ds vals
 
 def v2Arrs (ds : List X.Decl) : Array (Array (Option Word)) :=
-  ((v2Sizes ds).map fun len => Array.replicate len none).toArray
+  ((v2Sizes ds []).map fun len => Array.replicate len none).toArray
+
+/-- and the names that have a location: variables and arrays. -/
+def v2Gnames : List X.Decl → List String
+  | [] => []
+  | .var n :: ds => n :: v2Gnames ds
+  | .array n _ :: ds => n :: v2Gnames ds
+  | .val _ _ :: ds => v2Gnames ds
+
+theorem globalVals_cons_val (n : String) (w : Word) (env : List (String × GBind)) :
+    X.globalVals ((n, .val w) :: env) = (n, w) :: X.globalVals env := by
+  simp [X.globalVals]
+
+theorem globalVals_cons_var (n : String) (env : List (String × GBind)) :
+    X.globalVals ((n, .var) :: env) = X.globalVals env := by
+  simp [X.globalVals]
+
+theorem globalVals_cons_arr (n : String) (k : Nat) (env : List (String × GBind)) :
+    X.globalVals ((n, .array k) :: env) = X.globalVals env := by
+  simp [X.globalVals]
 
 theorem bindGlobals_v2 : ∀ (ds : List X.Decl) (env : List (String × GBind)) (gv : List (String × Option Word))
-    (arrs : Array (Array (Option Word))) (tot : Nat) r, ds.all isGDecl = true →
+    (arrs : Array (Array (Option Word))) (tot : Nat) r, isGDecls ds (X.globalVals env) = true →
     X.bindGlobals ds env gv arrs tot = .ok r →
-    r = (env.reverse ++ v2Genv ds arrs.size, gv.reverse ++ v2Gv ds, arrs ++ v2Arrs ds) := by
+    r = (env.reverse ++ v2Genv ds arrs.size (X.globalVals env), gv.reverse ++ v2Gv ds,
+         arrs ++ ((v2Sizes ds (X.globalVals env)).map fun len => Array.replicate len none).toArray) := by
   intro ds
   induction ds with
   | nil =>
     intro env gv arrs tot r _ h
     simp only [X.bindGlobals, Except.ok.injEq] at h
-    simp [← h, v2Genv, v2Gv, v2Arrs, v2Sizes]
+    simp [← h, v2Genv, v2Gv, v2Sizes]
   | cons d rest ih =>
     intro env gv arrs tot r hc h
-    simp only [List.all_cons, Bool.and_eq_true] at hc
     cases d with
     | var n =>
+      simp only [isGDecls] at hc
       unfold X.bindGlobals at h
-      have := ih _ _ _ _ r hc.2 h
-      rw [this]
-      simp [v2Genv, v2Gv, v2Arrs, v2Sizes]
-    | val n e => simp [isGDecl] at hc
+      have := ih _ _ _ _ r (by rw [globalVals_cons_var]; exact hc) h
+      rw [this, globalVals_cons_var]
+      simp [v2Genv, v2Gv, v2Sizes]
+    | val n e =>
+      simp only [isGDecls] at hc
+      unfold X.bindGlobals at h
+      cases hce : X.constEval (X.globalVals env) e with
+      | error w => rw [hce] at hc; simp at hc
+      | ok w =>
+        rw [hce] at hc
+        simp only [hce, bind, Except.bind] at h
+        have := ih _ _ _ _ r (by rw [globalVals_cons_val]; exact hc) h
+        rw [this, globalVals_cons_val]
+        simp [v2Genv, v2Gv, v2Sizes, hce]
     | array n e =>
-      cases e with
-      | num k =>
-        simp only [isGDecl, decide_eq_true_eq] at hc
-        unfold X.bindGlobals at h
-        simp only [X.constEval, bind, Except.bind] at h
+      simp only [isGDecls, Bool.and_eq_true] at hc
+      unfold X.bindGlobals at h
+      cases hce : X.constEval (X.globalVals env) e with
+      | error w => rw [hce] at hc; simp at hc
+      | ok w =>
+        rw [hce] at hc
+        simp only [decide_eq_true_eq] at hc
+        simp only [hce, bind, Except.bind] at h
         rw [if_neg (by omega)] at h
         split at h
         · cases h
-        · have := ih _ _ _ _ r hc.2 h
-          rw [this]
-          simp [v2Genv, v2Gv, v2Arrs, v2Sizes]
-      | _ => simp [isGDecl] at hc
+        · have := ih _ _ _ _ r (by rw [globalVals_cons_arr]; exact hc.2) h
+          rw [this, globalVals_cons_arr]
+          simp [v2Genv, v2Gv, v2Sizes, hce]
 
-theorem v2Genv_names : ∀ (ds : List X.Decl) (k : Nat), (v2Genv ds k).map (·.1) = ds.map X.Decl.name := by
+theorem v2Genv_mem_names : ∀ (ds : List X.Decl) (k : Nat) (vals : List (String × Word)) (n : String) (b : GBind),
+    (n, b) ∈ v2Genv ds k vals → n ∈ ds.map X.Decl.name := by
   intro ds
   induction ds with
-  | nil => intro k; rfl
+  | nil => intro k vals n b h; simp [v2Genv] at h
   | cons d rest ih =>
-    intro k
-    cases d <;> simp [v2Genv, X.Decl.name, ih]
-
-theorem v2Genv_kinds : ∀ (ds : List X.Decl) (k : Nat) (n : String) (b : GBind), (n, b) ∈ v2Genv ds k →
-    b = .var ∨ ∃ id, b = .array id := by
-  intro ds
-  induction ds with
-  | nil => intro k n b h; simp [v2Genv] at h
-  | cons d rest ih =>
-    intro k n b h
+    intro k vals n b h
     cases d with
     | var m =>
       simp only [v2Genv, List.mem_cons, Prod.mk.injEq] at h
-      rcases h with ⟨_, hb⟩ | h
-      · exact Or.inl hb
-      · exact ih _ n b h
-    | val m e =>
-      simp only [v2Genv, List.mem_cons, Prod.mk.injEq] at h
-      rcases h with ⟨_, hb⟩ | h
-      · exact Or.inl hb
-      · exact ih _ n b h
+      rcases h with ⟨hn, _⟩ | h
+      · simp [X.Decl.name, hn]
+      · exact List.mem_cons_of_mem _ (ih _ _ n b h)
     | array m e =>
       simp only [v2Genv, List.mem_cons, Prod.mk.injEq] at h
-      rcases h with ⟨_, hb⟩ | h
-      · exact Or.inr ⟨k, hb⟩
-      · exact ih _ n b h
+      rcases h with ⟨hn, _⟩ | h
+      · simp [X.Decl.name, hn]
+      · exact List.mem_cons_of_mem _ (ih _ _ n b h)
+    | val m e =>
+      simp only [v2Genv] at h
+      split at h
+      · simp only [List.mem_cons, Prod.mk.injEq] at h
+        rcases h with ⟨hn, _⟩ | h
+        · simp [X.Decl.name, hn]
+        · exact List.mem_cons_of_mem _ (ih _ _ n b h)
+      · exact List.mem_cons_of_mem _ (ih _ _ n b h)
+
+theorem v2Genv_sublist : ∀ (ds : List X.Decl) (k : Nat) (vals : List (String × Word)),
+    List.Sublist ((v2Genv ds k vals).map (·.1)) (ds.map X.Decl.name) := by
+  intro ds
+  induction ds with
+  | nil => intro k vals; simp [v2Genv]
+  | cons d rest ih =>
+    intro k vals
+    cases d with
+    | var m => simp only [v2Genv, List.map_cons, X.Decl.name]; exact (ih _ _).cons_cons _
+    | array m e => simp only [v2Genv, List.map_cons, X.Decl.name]; exact (ih _ _).cons_cons _
+    | val m e =>
+      simp only [v2Genv, List.map_cons, X.Decl.name]
+      split
+      · simp only [List.map_cons]; exact (ih _ _).cons_cons _
+      · exact (ih _ _).cons _
+
+/-- The located entries of the environment are exactly the variables and arrays. -/
+theorem v2Genv_loc : ∀ (ds : List X.Decl) (k : Nat) (vals : List (String × Word)) (n : String) (b : GBind),
+    (n, b) ∈ v2Genv ds k vals → (b = .var ∨ ∃ id, b = .array id) → n ∈ v2Gnames ds := by
+  intro ds
+  induction ds with
+  | nil => intro k vals n b h; simp [v2Genv] at h
+  | cons d rest ih =>
+    intro k vals n b h hk
+    cases d with
+    | var m =>
+      simp only [v2Genv, List.mem_cons, Prod.mk.injEq] at h
+      rcases h with ⟨hn, _⟩ | h
+      · simp [v2Gnames, hn]
+      · exact List.mem_cons_of_mem _ (ih _ _ n b h hk)
+    | array m e =>
+      simp only [v2Genv, List.mem_cons, Prod.mk.injEq] at h
+      rcases h with ⟨hn, _⟩ | h
+      · simp [v2Gnames, hn]
+      · exact List.mem_cons_of_mem _ (ih _ _ n b h hk)
+    | val m e =>
+      simp only [v2Genv] at h
+      simp only [v2Gnames]
+      split at h
+      · simp only [List.mem_cons, Prod.mk.injEq] at h
+        rcases h with ⟨_, hb⟩ | h
+        · rcases hk with hk | ⟨id, hk⟩ <;> rw [hk] at hb <;> simp at hb
+        · exact ih _ _ n b h hk
+      · exact ih _ _ n b h hk
+
+theorem v2Gnames_mem : ∀ (ds : List X.Decl) (k : Nat) (vals : List (String × Word)) (n : String),
+    n ∈ v2Gnames ds → ∃ b, (n, b) ∈ v2Genv ds k vals ∧ (b = .var ∨ ∃ id, b = .array id) := by
+  intro ds
+  induction ds with
+  | nil => intro k vals n h; simp [v2Gnames] at h
+  | cons d rest ih =>
+    intro k vals n h
+    cases d with
+    | var m =>
+      simp only [v2Gnames, List.mem_cons] at h
+      rcases h with rfl | h
+      · exact ⟨.var, by simp [v2Genv], Or.inl rfl⟩
+      · obtain ⟨b, hb, hk⟩ := ih k vals n h
+        exact ⟨b, by simp [v2Genv, hb], hk⟩
+    | array m e =>
+      simp only [v2Gnames, List.mem_cons] at h
+      rcases h with rfl | h
+      · exact ⟨.array k, by simp [v2Genv], Or.inr ⟨k, rfl⟩⟩
+      · obtain ⟨b, hb, hk⟩ := ih (k + 1) vals n h
+        exact ⟨b, by simp [v2Genv, hb], hk⟩
+    | val m e =>
+      simp only [v2Gnames] at h
+      simp only [v2Genv]
+      split
+      · rename_i w _
+        obtain ⟨b, hb, hk⟩ := ih k ((m, w) :: vals) n h
+        exact ⟨b, List.mem_cons_of_mem _ hb, hk⟩
+      · exact ih k vals n h
+
+theorem lookup_of_mem_nodup {β} : ∀ (l : List (String × β)) (n : String) (b : β), (l.map (·.1)).Nodup → (n, b) ∈ l →
+    l.lookup n = some b := by
+  intro l
+  induction l with
+  | nil => intro n b _ h; simp at h
+  | cons e rest ih =>
+    intro n b hnd h
+    obtain ⟨k, v⟩ := e
+    simp only [List.map_cons, List.nodup_cons] at hnd
+    simp only [List.mem_cons, Prod.mk.injEq] at h
+    simp only [List.lookup_cons]
+    rcases h with ⟨hn, hb⟩ | h
+    · simp [hn, hb]
+    · have hne : (n == k) = false := by
+        have : n ≠ k := by
+          intro e
+          apply hnd.1
+          rw [← e]
+          exact List.mem_map.mpr ⟨(n, b), h, rfl⟩
+        simpa using this
+      rw [hne]
+      exact ih n b hnd.2 h
 
 theorem v2Gv_none : ∀ (ds : List X.Decl) (n : String) (o : Option Word), (v2Gv ds).lookup n = some o → o = none := by
   intro ds
@@ -297,8 +433,14 @@ theorem v2Arrs_none (ds : List X.Decl) (id : Nat) (cells : Array (Option Word)) 
   · rw [Array.getElem?_eq_none (by simpa using hlt)] at hh
     simp at hh
 
+/-- The global constants, as `ConstProp` sees them. -/
+def v2Rho (P : X.Program) (n : String) : Option Word :=
+  match (v2Genv P.globals 0 []).lookup n with
+  | some (.val w) => some w
+  | _ => none
+
 def v2Xc (P : X.Program) (fuel : Nat) : X.Ctx :=
-  { genv := v2Genv P.globals 0 ++ P.procs.map (fun p => (p.name, GBind.proc p)),
+  { genv := v2Genv P.globals 0 [] ++ P.procs.map (fun p => (p.name, GBind.proc p)),
     impure := X.impureProcs P, limit := fuel }
 
 def procLen (cg : CGOut) (p : X.Proc) (i : Nat) (code : Code) : Nat :=
@@ -308,16 +450,16 @@ def procLen (cg : CGOut) (p : X.Proc) (i : Nat) (code : Code) : Nat :=
 
 /-- The body of every procedure generated again, with the final symbol table, threading the
     generator state as `CodeGen` does (exit label before, one label per local `var` after). -/
-def genProcs (cg : CGOut) : List X.Proc → Nat → GS → Nat → Option (List PInfo)
+def genProcs (cg : CGOut) (ρ : String → Option Word) : List X.Proc → Nat → GS → Nat → Option (List PInfo)
   | [], _, _, _ => some []
   | p :: ps, i, gs, pos =>
     let nl := p.locals.length
     let gs1 : GS := { gs with labelCount := gs.labelCount + 1, offset := nl, size := nl }
     let ctx : Xcmp.Ctx := { tbl := cg.tbl, scope := p.name, frame := i, exitLabel := (frameOf cg i).exitLabel }
-    match genStmt ctx (optStmt (annotS (fun _ => none) p.body)) gs1 with
+    match genStmt ctx (optStmt (annotS ρ p.body)) gs1 with
     | .error _ => none
     | .ok (code, gs2) =>
-      match genProcs cg ps (i + 1) { gs2 with labelCount := gs2.labelCount + nl } (pos + procLen cg p i code) with
+      match genProcs cg ρ ps (i + 1) { gs2 with labelCount := gs2.labelCount + nl } (pos + procLen cg p i code) with
       | none => none
       | some rest => some ({ p := p, idx := i, iPro := pos, code := code, gs1 := gs1, gs2 := gs2 } :: rest)
 
@@ -332,13 +474,14 @@ def smaxOf (cg : CGOut) (procs : List PInfo) : Nat :=
 def mkG (pk : Bool) (P : X.Program) (st : Stages) (img : Image) (fuel : Nat) (procs : List PInfo) : GCtx :=
   { env := v1Env st img, cg := st.cg, xc := v2Xc P fuel,
     consts := (procs.getLast?.map fun pi => pi.gs2.constMap).getD [],
-    procs := procs, gnames := P.globals.map X.Decl.name, pnames := P.procs.map (·.name),
+    procs := procs, gnames := v2Gnames P.globals, pnames := P.procs.map (·.name),
     gloc := v2Gloc st.cg (v1Env st img),
     spv := (spValue st.cg.globalsOffset).toNat, smax := smaxOf st.cg procs,
     lo := (spValue st.cg.globalsOffset).toNat - X.maxDepth * smaxOf st.cg procs,
     pk := pk,
-    asize := fun id => ((v2Sizes P.globals)[id]?).getD 0,
-    abase := fun id => 200000 - ((v2Sizes P.globals).take (id + 1)).sum }
+    asize := fun id => ((v2Sizes P.globals [])[id]?).getD 0,
+    abase := fun id => 200000 - ((v2Sizes P.globals []).take (id + 1)).sum,
+    rho := v2Rho P }
 
 /-! ### The decidable check -/
 
@@ -382,7 +525,7 @@ def procCheck (G : GCtx) (pi : PInfo) : Bool :=
   atB G.env.ds (G.iEpi pi) (G.epi pi) &&
   decide (pi.gs2.size ≤ G.S pi) && decide (pi.p.locals.length ≤ pi.gs1.offset) &&
   pi.gs2.constMap.all (fun e => G.consts.contains e) && decide (G.S pi ≤ G.smax) &&
-  okS5 G.pk G.pnames G.xc.impure pi.p.body && pi.p.formals.all isValFormal && pi.p.locals.all isVarDecl &&
+  okS5 G.pk G.pnames G.xc.impure G.rho pi.p.body && pi.p.formals.all isVAFormal && pi.p.locals.all isVarDecl &&
   G.procs.all (fun pj =>
     match G.cg.tbl.lookup pi.p.name pj.p.name with
     | .ok sym => decide ((sym.type = .func) ↔ (pj.p.isFunc = true))
@@ -396,7 +539,7 @@ def procCheck (G : GCtx) (pi : PInfo) : Bool :=
     match pi.p.locals[k]? with
     | some d => decide (k < G.S pi) && decide (G.locOf pi G.lo d.name = some (G.lo + G.S pi - 1 - k)) && !scopeGlobal G pi d.name
     | none => true) &&
-  pi.lnames.all (fun n => !G.gnames.contains n && !G.pnames.contains n)
+  pi.lnames.all (fun n => !G.gnames.contains n && !G.pnames.contains n && (G.rho n).isNone)
 
 def constCheck (G : GCtx) (vl : Int × String) : Bool :=
   match labelIdx G.env.ds vl.2 with
@@ -438,7 +581,7 @@ theorem scopeGlobal_iff (G : GCtx) (pi : PInfo) (n : String) :
 theorem ok_of_checks (G : GCtx) (imgWords : Nat)
     (hproc : ∀ pi ∈ G.procs, procCheck G pi = true) (hglob : globalCheck G imgWords = true)
     (hgen : ∀ pi ∈ G.procs,
-      genStmt (G.ctxOf pi) (optStmt (annotS (fun _ => none) pi.p.body)) pi.gs1 = .ok (pi.code, pi.gs2))
+      genStmt (G.ctxOf pi) (optStmt (annotS G.rho pi.p.body)) pi.gs1 = .ok (pi.code, pi.gs2))
     (hbeyond : ∀ w, imgWords ≤ w → G.env.isCode w = false) (hcode1 : G.env.isCode 1 = false)
     (resolve : ∀ f p, G.xc.genv.lookup f = some (.proc p) → ∃ pi ∈ G.procs, pi.p = p ∧ p.name = f)
     (genv_vars : ∀ n, G.xc.genv.lookup n = some .var → n ∈ G.gnames)
@@ -447,10 +590,10 @@ theorem ok_of_checks (G : GCtx) (imgWords : Nat)
     (arr_hi : ∀ id, G.asize id ≠ 0 → G.spv + 2 < G.abase id ∧ G.abase id + G.asize id ≤ memWords)
     (arr_disj : ∀ id1 id2, id1 ≠ id2 → G.asize id1 ≠ 0 → G.asize id2 ≠ 0 →
       G.abase id1 + G.asize id1 ≤ G.abase id2 ∨ G.abase id2 + G.asize id2 ≤ G.abase id1)
-    (no_vals : ∀ n w, G.xc.genv.lookup n ≠ some (.val w))
+    (rho_ok : ∀ n w, G.xc.genv.lookup n = some (.val w) ↔ G.rho n = some w)
     (pnames_ok : ∀ f p, G.xc.genv.lookup f = some (.proc p) → f ∈ G.pnames)
     (pnames_mem : ∀ f ∈ G.pnames, ∃ p, G.xc.genv.lookup f = some (.proc p))
-    (genv_none : ∀ n, n ∉ G.gnames → n ∉ G.pnames → G.xc.genv.lookup n = none)
+    (genv_none : ∀ n, n ∉ G.gnames → n ∉ G.pnames → G.rho n = none → G.xc.genv.lookup n = none)
     (hpure : G.pk = true → PureOk G.xc) : G.OK := by
   unfold globalCheck at hglob
   simp only [Bool.and_eq_true, decide_eq_true_eq, List.all_eq_true] at hglob
@@ -462,7 +605,7 @@ theorem ok_of_checks (G : GCtx) (imgWords : Nat)
        atB G.env.ds (G.iBody pi) (lowerCode G.cg pi.code) = true ∧ atB G.env.ds (G.iEpi pi) (G.epi pi) = true ∧
        pi.gs2.size ≤ G.S pi ∧ pi.p.locals.length ≤ pi.gs1.offset ∧
        (∀ e ∈ pi.gs2.constMap, G.consts.contains e = true) ∧ G.S pi ≤ G.smax ∧
-       okS5 G.pk G.pnames G.xc.impure pi.p.body = true ∧ pi.p.formals.all isValFormal = true ∧ pi.p.locals.all isVarDecl = true) ∧
+       okS5 G.pk G.pnames G.xc.impure G.rho pi.p.body = true ∧ pi.p.formals.all isVAFormal = true ∧ pi.p.locals.all isVarDecl = true) ∧
       ((∀ pj ∈ G.procs, (match G.cg.tbl.lookup pi.p.name pj.p.name with
           | .ok sym => decide ((sym.type = .func) ↔ (pj.p.isFunc = true))
           | .error _ => false) = true) ∧
@@ -473,7 +616,7 @@ theorem ok_of_checks (G : GCtx) (imgWords : Nat)
        (∀ k ∈ List.range pi.p.locals.length, (match pi.p.locals[k]? with
           | some d => decide (k < G.S pi) && decide (G.locOf pi G.lo d.name = some (G.lo + G.S pi - 1 - k)) && !scopeGlobal G pi d.name
           | none => true) = true) ∧
-       (∀ n ∈ pi.lnames, G.gnames.contains n = false ∧ G.pnames.contains n = false)) := by
+       (∀ n ∈ pi.lnames, (G.gnames.contains n = false ∧ G.pnames.contains n = false) ∧ (G.rho n).isNone = true)) := by
     intro pi hpi
     have := hproc pi hpi
     unfold procCheck at this
@@ -532,7 +675,7 @@ theorem ok_of_checks (G : GCtx) (imgWords : Nat)
     smax_ok := fun pi hpi => (hpc pi hpi).1.2.2.2.2.2.2.2.2.2.1
     body_ok := fun pi hpi => (hpc pi hpi).1.2.2.2.2.2.2.2.2.2.2.1
     pure_ok := hpure
-    formals_val := fun pi hpi => (hpc pi hpi).1.2.2.2.2.2.2.2.2.2.2.2.1
+    formals_ok := fun pi hpi => (hpc pi hpi).1.2.2.2.2.2.2.2.2.2.2.2.1
     locals_var := fun pi hpi => (hpc pi hpi).1.2.2.2.2.2.2.2.2.2.2.2.2
     resolve := resolve
     callee_sym := by
@@ -549,7 +692,7 @@ theorem ok_of_checks (G : GCtx) (imgWords : Nat)
     gnames_genv := gnames_genv
     arr_hi := arr_hi
     arr_disj := arr_disj
-    no_vals := no_vals
+    rho_ok := rho_ok
     pnames_ok := pnames_ok
     pnames_mem := pnames_mem
     low_global := by
@@ -615,8 +758,8 @@ theorem ok_of_checks (G : GCtx) (imgWords : Nat)
         omega
     noshadow := by
       intro pi hpi n hn
-      obtain ⟨h1, h2⟩ := (hpc pi hpi).2.2.2.2.2 n hn
-      exact genv_none n (by simpa using h1) (by simpa using h2)
+      obtain ⟨⟨h1, h2⟩, h3⟩ := (hpc pi hpi).2.2.2.2.2 n hn
+      exact genv_none n (by simpa using h1) (by simpa using h2) (by simpa using h3)
     gloc_ge := by
       intro n hn a h
       have := g2 n hn
@@ -647,11 +790,11 @@ theorem ok_of_checks (G : GCtx) (imgWords : Nat)
 
 /-! ### Facts by construction -/
 
-theorem genProcs_spec (cg : CGOut) : ∀ (ps : List X.Proc) (i : Nat) (gs : GS) (pos : Nat) (procs : List PInfo),
-    genProcs cg ps i gs pos = some procs →
+theorem genProcs_spec (cg : CGOut) (ρ : String → Option Word) : ∀ (ps : List X.Proc) (i : Nat) (gs : GS) (pos : Nat) (procs : List PInfo),
+    genProcs cg ρ ps i gs pos = some procs →
     procs.map (·.p) = ps ∧
     ∀ pi ∈ procs, genStmt { tbl := cg.tbl, scope := pi.p.name, frame := pi.idx, exitLabel := (frameOf cg pi.idx).exitLabel }
-      (optStmt (annotS (fun _ => none) pi.p.body)) pi.gs1 = .ok (pi.code, pi.gs2) := by
+      (optStmt (annotS ρ pi.p.body)) pi.gs1 = .ok (pi.code, pi.gs2) := by
   intro ps
   induction ps with
   | nil =>
@@ -734,84 +877,82 @@ variable (P : X.Program) (fuel : Nat)
 
 theorem v2_genv_lookup (n : String) :
     (v2Xc P fuel).genv.lookup n =
-      ((v2Genv P.globals 0).lookup n).or ((P.procs.map fun p => (p.name, GBind.proc p)).lookup n) := by
+      ((v2Genv P.globals 0 []).lookup n).or ((P.procs.map fun p => (p.name, GBind.proc p)).lookup n) := by
   simp only [v2Xc, List.lookup_append]
 
-theorem v2_glob_lookup (n : String) (b : GBind) (h : (v2Genv P.globals 0).lookup n = some b) :
-    n ∈ P.globals.map X.Decl.name ∧ (b = .var ∨ ∃ id, b = .array id) := by
-  have hm := lookup_mem_pair _ _ _ h
-  refine ⟨?_, v2Genv_kinds _ _ n b hm⟩
-  rw [← v2Genv_names P.globals 0]
-  exact List.mem_map.mpr ⟨(n, b), hm, rfl⟩
-
-theorem v2_glob_some (n : String) (h : n ∈ P.globals.map X.Decl.name) : ∃ b, (v2Genv P.globals 0).lookup n = some b := by
-  cases hl : (v2Genv P.globals 0).lookup n with
-  | some b => exact ⟨b, rfl⟩
-  | none =>
-    exfalso
-    rw [← v2Genv_names P.globals 0] at h
-    obtain ⟨⟨m, b⟩, hm, hn⟩ := List.mem_map.mp h
-    simp only at hn
-    subst hn
-    have : (v2Genv P.globals 0).lookup m ≠ none := by
-      intro hnone
-      have := List.lookup_eq_none_iff.mp hnone (m, b) hm
-      simp at this
-    exact this hl
-
-theorem v2_genv_vars (n : String) (h : (v2Xc P fuel).genv.lookup n = some .var) : n ∈ P.globals.map X.Decl.name := by
+/-- A lookup that finds a variable, an array or a constant finds it among the globals. -/
+theorem v2_genv_glob (n : String) (b : GBind) (h : (v2Xc P fuel).genv.lookup n = some b) (hb : ∀ p, b ≠ .proc p) :
+    (v2Genv P.globals 0 []).lookup n = some b := by
   rw [v2_genv_lookup] at h
-  cases hg : (v2Genv P.globals 0).lookup n with
-  | some b => exact (v2_glob_lookup P n b hg).1
+  cases hg : (v2Genv P.globals 0 []).lookup n with
+  | some b' => rw [hg] at h; simpa using h
   | none =>
     rw [hg] at h
     simp only [Option.none_or] at h
-    obtain ⟨_, _, _, h2⟩ := lookup_map_val _ _ _ _ _ h
-    simp at h2
+    obtain ⟨x, _, _, h2⟩ := lookup_map_val _ _ _ _ _ h
+    exact absurd h2.symm (hb x)
+
+theorem v2_genv_vars (n : String) (h : (v2Xc P fuel).genv.lookup n = some .var) : n ∈ v2Gnames P.globals :=
+  v2Genv_loc _ _ _ n _ (lookup_mem_pair _ _ _ (v2_genv_glob P fuel n _ h (by simp))) (Or.inl rfl)
 
 theorem v2_genv_arrs (n : String) (id : Nat) (h : (v2Xc P fuel).genv.lookup n = some (.array id)) :
-    n ∈ P.globals.map X.Decl.name := by
-  rw [v2_genv_lookup] at h
-  cases hg : (v2Genv P.globals 0).lookup n with
-  | some b => exact (v2_glob_lookup P n b hg).1
-  | none =>
-    rw [hg] at h
-    simp only [Option.none_or] at h
-    obtain ⟨_, _, _, h2⟩ := lookup_map_val _ _ _ _ _ h
-    simp at h2
+    n ∈ v2Gnames P.globals :=
+  v2Genv_loc _ _ _ n _ (lookup_mem_pair _ _ _ (v2_genv_glob P fuel n _ h (by simp))) (Or.inr ⟨id, rfl⟩)
 
-theorem v2_gnames_genv (n : String) (h : n ∈ P.globals.map X.Decl.name) :
+theorem v2_gnames_genv (hnd : (P.globals.map X.Decl.name).Nodup) (n : String) (h : n ∈ v2Gnames P.globals) :
     (v2Xc P fuel).genv.lookup n = some .var ∨ ∃ id, (v2Xc P fuel).genv.lookup n = some (.array id) := by
   rw [v2_genv_lookup]
-  obtain ⟨b, hb⟩ := v2_glob_some P n h
-  rw [hb]
+  obtain ⟨b, hb, hk⟩ := v2Gnames_mem P.globals 0 [] n h
+  have hl := lookup_of_mem_nodup _ n b (List.Nodup.sublist (v2Genv_sublist P.globals 0 []) hnd) hb
+  rw [hl]
   simp only [Option.some_or, Option.some.injEq]
-  rcases (v2_glob_lookup P n b hb).2 with h1 | ⟨id, h1⟩
+  rcases hk with h1 | ⟨id, h1⟩
   · exact Or.inl h1
   · exact Or.inr ⟨id, h1⟩
 
-theorem v2_no_vals (n : String) (w : Word) : (v2Xc P fuel).genv.lookup n ≠ some (.val w) := by
-  rw [v2_genv_lookup]
-  intro h
-  cases hg : (v2Genv P.globals 0).lookup n with
-  | some b =>
-    rw [hg] at h
-    simp only [Option.some_or, Option.some.injEq] at h
-    rcases (v2_glob_lookup P n b hg).2 with h1 | ⟨id, h1⟩ <;> rw [h1] at h <;> simp at h
-  | none =>
-    rw [hg] at h
-    simp only [Option.none_or] at h
-    obtain ⟨_, _, _, h2⟩ := lookup_map_val _ _ _ _ _ h
-    simp at h2
+theorem v2_rho_ok (n : String) (w : Word) : (v2Xc P fuel).genv.lookup n = some (.val w) ↔ v2Rho P n = some w := by
+  constructor
+  · intro h
+    have := v2_genv_glob P fuel n _ h (by simp)
+    unfold v2Rho
+    rw [this]
+  · intro h
+    unfold v2Rho at h
+    rw [v2_genv_lookup]
+    cases hg : (v2Genv P.globals 0 []).lookup n with
+    | none => rw [hg] at h; simp at h
+    | some b =>
+      rw [hg] at h
+      cases b <;> simp at h
+      subst h
+      rfl
 
 theorem v2_proc_lookup (f : String) (p : X.Proc) (h : (v2Xc P fuel).genv.lookup f = some (.proc p)) :
     p ∈ P.procs ∧ p.name = f := by
   rw [v2_genv_lookup] at h
-  cases hg : (v2Genv P.globals 0).lookup f with
+  cases hg : (v2Genv P.globals 0 []).lookup f with
   | some b =>
+    exfalso
     rw [hg] at h
     simp only [Option.some_or, Option.some.injEq] at h
-    rcases (v2_glob_lookup P f b hg).2 with h1 | ⟨id, h1⟩ <;> rw [h1] at h <;> simp at h
+    subst h
+    have hm := lookup_mem_pair _ _ _ hg
+    -- no entry of the global environment is a procedure
+    have : ∀ (ds : List X.Decl) (k : Nat) (vals : List (String × Word)), (f, GBind.proc p) ∉ v2Genv ds k vals := by
+      intro ds
+      induction ds with
+      | nil => intro k vals hh; simp [v2Genv] at hh
+      | cons d rest ih =>
+        intro k vals hh
+        cases d with
+        | var m => simp only [v2Genv, List.mem_cons, Prod.mk.injEq] at hh; rcases hh with ⟨_, h2⟩ | hh; simp at h2; exact ih _ _ hh
+        | array m e => simp only [v2Genv, List.mem_cons, Prod.mk.injEq] at hh; rcases hh with ⟨_, h2⟩ | hh; simp at h2; exact ih _ _ hh
+        | val m e =>
+          simp only [v2Genv] at hh
+          split at hh
+          · simp only [List.mem_cons, Prod.mk.injEq] at hh; rcases hh with ⟨_, h2⟩ | hh; simp at h2; exact ih _ _ hh
+          · exact ih _ _ hh
+    exact this _ _ _ hm
   | none =>
     rw [hg] at h
     simp only [Option.none_or] at h
@@ -826,10 +967,10 @@ theorem v2_pnames_mem (hnd : (P.globals.map X.Decl.name ++ P.procs.map (·.name)
   have hng : f ∉ P.globals.map X.Decl.name := by
     intro hg
     exact (List.nodup_append.mp hnd).2.2 f hg f hf rfl
-  have h1 : (v2Genv P.globals 0).lookup f = none := by
-    apply lookup_none_of_not_mem
-    rw [v2Genv_names]
-    exact hng
+  have h1 : (v2Genv P.globals 0 []).lookup f = none := by
+    cases hl : (v2Genv P.globals 0 []).lookup f with
+    | none => rfl
+    | some b => exact absurd (v2Genv_mem_names _ _ _ f b (lookup_mem_pair _ _ _ hl)) hng
   rw [h1]
   simp only [Option.none_or]
   obtain ⟨b, hb⟩ := lookup_map_some (fun p : X.Proc => p.name) (fun p => GBind.proc p) P.procs f hf
@@ -838,9 +979,15 @@ theorem v2_pnames_mem (hnd : (P.globals.map X.Decl.name ++ P.procs.map (·.name)
 
 theorem v2_genv_none (n : String) (h1 : n ∉ P.globals.map X.Decl.name) (h2 : n ∉ P.procs.map (·.name)) :
     (v2Xc P fuel).genv.lookup n = none := by
+  rw [v2_genv_lookup]
+  have e1 : (v2Genv P.globals 0 []).lookup n = none := by
+    cases hl : (v2Genv P.globals 0 []).lookup n with
+    | none => rfl
+    | some b => exact absurd (v2Genv_mem_names _ _ _ n b (lookup_mem_pair _ _ _ hl)) h1
+  rw [e1]
+  simp only [Option.none_or]
   apply lookup_none_of_not_mem
-  simp only [v2Xc, List.map_append, List.mem_append, not_or]
-  refine ⟨by rw [v2Genv_names]; exact h1, by simpa [List.map_map] using h2⟩
+  simpa [List.map_map] using h2
 
 end genv
 
@@ -851,7 +998,7 @@ def v2St0 (P : X.Program) (inp : X.Input) : X.St :=
     io := Isa.IOSt.init inp.stdin inp.files, calls := [], steps := 0, depth := 0 }
 
 theorem run_v2 (P : X.Program) (inp : X.Input) (fuel : Nat) (β : X.Behaviour)
-    (hg : P.globals.all isGDecl = true) (hrun : X.run P inp fuel = .defined β) :
+    (hg : isGDecls P.globals [] = true) (hrun : X.run P inp fuel = .defined β) :
     ∃ m, P.procs.find? (·.name == "main") = some m ∧
       ((∃ r s, X.callUser fuel (v2Xc P fuel) m [] (v2St0 P inp) = .ok r s ∧
           β.exit = 0 ∧ β.events = s.io.log.reverse ∧ β.stdinConsumed = inp.stdin.length - s.io.stdin.length ∧
@@ -868,10 +1015,12 @@ theorem run_v2 (P : X.Program) (inp : X.Input) (fuel : Nat) (β : X.Behaviour)
     cases hb : X.bindGlobals P.globals [] [] #[] 0 with
     | error w => rw [hb] at hrun; simp at hrun
     | ok r =>
-    have hr := bindGlobals_v2 P.globals [] [] #[] 0 r hg hb
+    have hgv0 : X.globalVals [] = [] := rfl
+    have hr := bindGlobals_v2 P.globals [] [] #[] 0 r (by rw [hgv0]; exact hg) hb
+    rw [hgv0] at hr
     rw [hb, hr] at hrun
     simp only [List.reverse_nil, List.nil_append, List.size_toArray, List.length_nil, Array.empty_append] at hrun
-    cases hck : X.checkProcs (v2Genv P.globals 0 ++ P.procs.map fun p => (p.name, GBind.proc p)) P.procs with
+    cases hck : X.checkProcs (v2Genv P.globals 0 [] ++ P.procs.map fun p => (p.name, GBind.proc p)) P.procs with
     | error w => rw [hck] at hrun; simp at hrun
     | ok u2 =>
       rw [hck] at hrun
@@ -882,9 +1031,9 @@ theorem run_v2 (P : X.Program) (inp : X.Input) (fuel : Nat) (β : X.Behaviour)
         rw [hfm] at hrun
         simp only at hrun
         refine ⟨m, rfl, ?_⟩
-        have hctx : ({ genv := v2Genv P.globals 0 ++ P.procs.map (fun p => (p.name, GBind.proc p)),
+        have hctx : ({ genv := v2Genv P.globals 0 [] ++ P.procs.map (fun p => (p.name, GBind.proc p)),
                        impure := X.impureProcs P, limit := fuel } : X.Ctx) = v2Xc P fuel := rfl
-        have hst : ({ gvars := v2Gv P.globals, arrays := v2Arrs P.globals, locals := [],
+        have hst : ({ gvars := v2Gv P.globals, arrays := ((v2Sizes P.globals []).map fun len => Array.replicate len none).toArray, locals := [],
                       io := Isa.IOSt.init inp.stdin inp.files, calls := [], steps := 0, depth := 0 } : X.St)
             = v2St0 P inp := rfl
         rw [hctx, hst] at hrun
@@ -982,9 +1131,8 @@ theorem v2_core (G : GCtx) (ok : G.OK) (fuel : Nat) (mem0 : Mem) (st0 : X.St) (h
   have haddr := ok.addr_lt _ _ _ t3
   have hlodef := ok.lo_def
   have := hcs pm hpm [] st0 (BitVec.ofNat 32 (G.env.addr (iStub + 3))) 0 mem0 G.spv (iStub + 3) .plain "_exit"
-    hg0 hm1 (fun j hj => by simp at hj) (by rw [hdepth]; omega) (by rw [hpo]; simp) (by omega) t3
+    hg0 hm1 (fun v hv => by simp at hv) (fun j hj => by simp at hj) (by rw [hdepth]; omega) (by rw [hpo]; simp) (by omega) t3
     (toNat_ofNat_lt _ haddr).symm
-  simp only [List.map_nil] at this
   cases hx : X.callUser fuel G.xc pm.p [] st0 with
   | undef w => trivial
   | exit code s =>
@@ -1039,8 +1187,9 @@ open V1Pos in
 /-- **The decidable side condition of the whole-program theorem for programs with several
     procedures** (`pk`: with calls of pure functions in operands). -/
 def vCheck (pk : Bool) (P : X.Program) (st : Stages) (img : Image) : Bool :=
-  P.globals.all isGDecl &&
-  match genProcs st.cg P.procs 0 { labelCount := P.globals.length } (2 + st.cg.data.length + 8) with
+  isGDecls P.globals [] &&
+  decide ((P.globals.map X.Decl.name ++ P.procs.map (·.name)).Nodup) &&
+  match genProcs st.cg (v2Rho P) P.procs 0 { labelCount := (v2Gnames P.globals).length } (2 + st.cg.data.length + 8) with
   | none => false
   | some procs =>
     let G := mkG pk P st img 0 procs
@@ -1054,7 +1203,7 @@ def vCheck (pk : Bool) (P : X.Program) (st : Stages) (img : Image) : Bool :=
      | some pm => !pm.p.isFunc
      | none => false) &&
     (!pk || pureOkB (v2Xc P 0)) &&
-    arrLayoutCheck G (v2Sizes P.globals).length && (v2Genv P.globals 0).all (arrPtrCheck st.cg G.env G.abase)
+    arrLayoutCheck G (v2Sizes P.globals []).length && (v2Genv P.globals 0 []).all (arrPtrCheck st.cg G.env G.abase)
 
 /-- The check for the class V2 (calls only as statements and as whole right-hand sides). -/
 def v2Check (P : X.Program) (st : Stages) (img : Image) : Bool := vCheck false P st img
@@ -1072,7 +1221,7 @@ theorem globalCheck_fuel (pk : Bool) (P : X.Program) (st : Stages) (img : Image)
 theorem v_setup (pk : Bool) (P : X.Program) (st : Stages) (img : Image) (inp : X.Input) (fuel : Nat)
     (hasm : assembleDirs st.optimised = .ok img) (hchk : vCheck pk P st img = true) :
     ∃ (G : GCtx) (pm : PInfo), G.OK ∧ G.env = v1Env st img ∧ G.xc = v2Xc P fuel ∧ Good st.optimised img ∧
-      Peep st.lowered st.optimised (peepSt st.lowered) ∧ P.globals.all isGDecl = true ∧
+      Peep st.lowered st.optimised (peepSt st.lowered) ∧ isGDecls P.globals [] = true ∧
       pm ∈ G.procs ∧ pm.p.name = "main" ∧ pm.p.isFunc = false ∧
       (∀ m, P.procs.find? (·.name == "main") = some m → pm.p = m) ∧
       At G.env.ds 0 [.ref 0x9 "_start" true, .data (spValue st.cg.globalsOffset)] ∧
@@ -1082,12 +1231,14 @@ theorem v_setup (pk : Bool) (P : X.Program) (st : Stages) (img : Image) (inp : X
   unfold vCheck at hchk
   rw [Bool.and_eq_true] at hchk
   obtain ⟨hgv, hchk⟩ := hchk
+  rw [Bool.and_eq_true, decide_eq_true_eq] at hgv
+  obtain ⟨hgv, hndall⟩ := hgv
   split at hchk
   · simp at hchk
   rename_i procs hprocs
   simp only [Bool.and_eq_true, decide_eq_true_eq, List.all_eq_true] at hchk
   obtain ⟨⟨⟨⟨⟨⟨⟨⟨⟨⟨⟨⟨⟨c1, c3⟩, c4⟩, c5⟩, c6⟩, cproc⟩, cglob⟩, chead⟩, cstub⟩, c0⟩, cmain⟩, cpure⟩, carr⟩, cptr⟩ := hchk
-  obtain ⟨hmap, hgen⟩ := genProcs_spec st.cg _ _ _ _ _ hprocs
+  obtain ⟨hmap, hgen⟩ := genProcs_spec st.cg _ _ _ _ _ _ hprocs
   have g : Good st.optimised img := ⟨parsedOkB_sound _ c3, c4, assembleDirs_ok _ _ hasm, c5, c6⟩
   have F := facts_of_good st.optimised img g
   have hp : Peep st.lowered st.optimised (peepSt st.lowered) := by rw [c1]; exact peephole_peep _
@@ -1096,7 +1247,8 @@ theorem v_setup (pk : Bool) (P : X.Program) (st : Stages) (img : Image) (inp : X
   have hGenv : G.env = v1Env st img := by rw [hG]; rfl
   have hGprocs : G.procs = procs := by rw [hG]; rfl
   have hGxc : G.xc = v2Xc P fuel := by rw [hG]; rfl
-  have hGg : G.gnames = P.globals.map X.Decl.name := by rw [hG]; rfl
+  have hGg : G.gnames = v2Gnames P.globals := by rw [hG]; rfl
+  have hGrho : G.rho = v2Rho P := by rw [hG]; rfl
   have hGp : G.pnames = P.procs.map (·.name) := by rw [hG]; rfl
   have hGspv : G.spv = (spValue st.cg.globalsOffset).toNat := by rw [hG]; rfl
   have hglob : globalCheck G (img.bytes.length / 4) = true := by rw [hG, globalCheck_fuel]; exact cglob
@@ -1138,19 +1290,19 @@ theorem v_setup (pk : Bool) (P : X.Program) (st : Stages) (img : Image) (inp : X
     have h41 : 4 / 4 = 1 := rfl
     rw [h41] at hm1
     rw [hm1, hGspv, ← W_ofNat, Int.toNat_of_nonneg c0]
-  have hasz : ∀ id, G.asize id = ((v2Sizes P.globals)[id]?).getD 0 := by intro id; rw [hG]; rfl
+  have hasz : ∀ id, G.asize id = ((v2Sizes P.globals [])[id]?).getD 0 := by intro id; rw [hG]; rfl
   have harrL : ∀ id, G.asize id ≠ 0 → (G.spv + 2 < G.abase id ∧ G.abase id + G.asize id ≤ memWords) ∧
       ∀ id2, id ≠ id2 → G.asize id2 ≠ 0 →
         G.abase id + G.asize id ≤ G.abase id2 ∨ G.abase id2 + G.asize id2 ≤ G.abase id := by
-    have hlt : ∀ id, G.asize id ≠ 0 → id < (v2Sizes P.globals).length := by
+    have hlt : ∀ id, G.asize id ≠ 0 → id < (v2Sizes P.globals []).length := by
       intro id hz
-      by_cases h : id < (v2Sizes P.globals).length
+      by_cases h : id < (v2Sizes P.globals []).length
       · exact h
       · exfalso
         apply hz
         rw [hasz, List.getElem?_eq_none (by omega)]
         rfl
-    have carr' : arrLayoutCheck G (v2Sizes P.globals).length = true := by rw [hG]; exact carr
+    have carr' : arrLayoutCheck G (v2Sizes P.globals []).length = true := by rw [hG]; exact carr
     unfold arrLayoutCheck at carr'
     simp only [Bool.and_eq_true, List.all_eq_true, List.mem_range, Bool.or_eq_true, decide_eq_true_eq] at carr'
     intro id hz
@@ -1189,14 +1341,14 @@ theorem v_setup (pk : Bool) (P : X.Program) (st : Stages) (img : Image) (inp : X
     · intro n hn
       rw [hGg] at hn
       rw [hGxc]
-      exact v2_gnames_genv P fuel n hn
+      exact v2_gnames_genv P fuel (List.nodup_append.mp hndall).1 n hn
     · intro id hz
       exact (harrL id hz).1
     · intro id1 id2 hne hz1 hz2
       exact (harrL id1 hz1).2 id2 hne hz2
     · intro n w
-      rw [hGxc]
-      exact v2_no_vals P fuel n w
+      rw [hGxc, hGrho]
+      exact v2_rho_ok P fuel n w
     · intro f p h
       rw [hGxc] at h
       obtain ⟨hpm, hn⟩ := v2_proc_lookup P fuel f p h
@@ -1205,12 +1357,23 @@ theorem v_setup (pk : Bool) (P : X.Program) (st : Stages) (img : Image) (inp : X
     · intro f hf
       rw [hGp] at hf
       rw [hGxc]
-      exact v2_pnames_mem P fuel hnd f hf
-    · intro n h1 h2
+      exact v2_pnames_mem P fuel hndall f hf
+    · intro n h1 h2 h3
       rw [hGxc]
       rw [hGg] at h1
       rw [hGp] at h2
-      exact v2_genv_none P fuel n h1 h2
+      rw [hGrho] at h3
+      cases hl : (v2Xc P fuel).genv.lookup n with
+      | none => rfl
+      | some b =>
+        exfalso
+        cases b with
+        | var => exact h1 (v2_genv_vars P fuel n hl)
+        | array id => exact h1 (v2_genv_arrs P fuel n id hl)
+        | val w => have := (v2_rho_ok P fuel n w).mp hl; rw [h3] at this; simp at this
+        | proc p =>
+          obtain ⟨hpm, hn⟩ := v2_proc_lookup P fuel n p hl
+          exact h2 (List.mem_map.mpr ⟨p, hpm, hn⟩)
     · intro hpk
       rw [hGpk] at hpk
       rw [hGxc]
@@ -1242,15 +1405,8 @@ theorem v_setup (pk : Bool) (P : X.Program) (st : Stages) (img : Image) (inp : X
         have := v2Gv_none P.globals n _ hl
         simp at this
       · intro n id h
-        rw [hGxc, v2_genv_lookup] at h
-        have hgl : (v2Genv P.globals 0).lookup n = some (.array id) := by
-          cases hg : (v2Genv P.globals 0).lookup n with
-          | some b => rw [hg] at h; simpa using h
-          | none =>
-            rw [hg] at h
-            simp only [Option.none_or] at h
-            obtain ⟨_, _, _, h2⟩ := lookup_map_val _ _ _ _ _ h
-            simp at h2
+        rw [hGxc] at h
+        have hgl := v2_genv_glob P fuel n _ h (by simp)
         have hck := cptr (n, .array id) (lookup_mem_pair _ _ _ hgl)
         unfold arrPtrCheck at hck
         simp only at hck
@@ -1301,7 +1457,7 @@ theorem v_setup (pk : Bool) (P : X.Program) (st : Stages) (img : Image) (inp : X
 theorem v2_setup (P : X.Program) (st : Stages) (img : Image) (inp : X.Input) (fuel : Nat)
     (hasm : assembleDirs st.optimised = .ok img) (hchk : v2Check P st img = true) :
     ∃ (G : GCtx) (pm : PInfo), G.OK ∧ G.env = v1Env st img ∧ G.xc = v2Xc P fuel ∧ Good st.optimised img ∧
-      Peep st.lowered st.optimised (peepSt st.lowered) ∧ P.globals.all isGDecl = true ∧
+      Peep st.lowered st.optimised (peepSt st.lowered) ∧ isGDecls P.globals [] = true ∧
       pm ∈ G.procs ∧ pm.p.name = "main" ∧ pm.p.isFunc = false ∧
       (∀ m, P.procs.find? (·.name == "main") = some m → pm.p = m) ∧
       At G.env.ds 0 [.ref 0x9 "_start" true, .data (spValue st.cg.globalsOffset)] ∧
@@ -1382,8 +1538,8 @@ theorem v2_whole (P : X.Program) (inp : X.Input) (fuel : Nat) (β : X.Behaviour)
 def isV2 (P : X.Program) : Bool :=
   let gn := P.globals.map X.Decl.name
   let pn := P.procs.map (·.name)
-  P.globals.all isGDecl &&
-  P.procs.all (fun p => p.formals.all isValFormal && p.locals.all isVarDecl && okS4 pn p.body &&
+  isGDecls P.globals [] &&
+  P.procs.all (fun p => p.formals.all isVAFormal && p.locals.all isVarDecl && okS5 false pn [] (v2Rho P) p.body &&
     (p.formals.map X.Formal.name ++ p.locals.map X.Decl.name).all (fun n => !gn.contains n && !pn.contains n)) &&
   (match P.procs.find? (·.name == "main") with
    | some m => !m.isFunc && m.formals.isEmpty
@@ -1427,8 +1583,8 @@ theorem v3_whole (P : X.Program) (inp : X.Input) (fuel : Nat) (β : X.Behaviour)
 def isV3 (P : X.Program) : Bool :=
   let gn := P.globals.map X.Decl.name
   let pn := P.procs.map (·.name)
-  P.globals.all isGDecl &&
-  P.procs.all (fun p => p.formals.all isValFormal && p.locals.all isVarDecl && okS5 true pn (X.impureProcs P) p.body &&
+  isGDecls P.globals [] &&
+  P.procs.all (fun p => p.formals.all isVAFormal && p.locals.all isVarDecl && okS5 true pn (X.impureProcs P) (v2Rho P) p.body &&
     (p.formals.map X.Formal.name ++ p.locals.map X.Decl.name).all (fun n => !gn.contains n && !pn.contains n)) &&
   (match P.procs.find? (·.name == "main") with
    | some m => !m.isFunc && m.formals.isEmpty
